@@ -702,7 +702,8 @@ P('C13', 'other',
    lambda c: r13_2_reconcile_dominates(c, 'R13.2'),
    lambda c: RM.r13_3_reconcile_shape(c, 'R13.3'),
    lambda c: r_fresh_results(c, 'R13.3', [('pyspike.spikes', 'reconcile_spike_trains'), ('pyspike.spikes', 'reconcile_spike_trains_bi')]),
-   lambda c: r09_2_ownership(c, 'R13.4', {'SpikeTrain'})],
+   lambda c: r09_2_ownership(c, 'R13.4', {'SpikeTrain'}),
+   lambda c: RM.r_spiketrain_ctor(c, 'R13.6')],
   "R13.1 (fully decided, modulo the closed tables of copying / in-place operations): no function of the package - wrappers, classes, both "
   "backends - stores through an alias of a parameter, calls an in-place method on one, or passes one to a callee that does: no input is ever "
   "modified, for all inputs, call forms and backends; R13.2 on every route from a public entry point, trains are reconciled (by the function "
@@ -809,7 +810,8 @@ P('C20', 'other',
   [lambda c: RM.r20_1_multiset(c, 'R20.1'),
    lambda c: r13_1_no_param_written(c, 'R20.2', names={'merge_spike_trains', 'psth', 'generate_poisson_spikes'}),
    lambda c: r_fresh_results(c, 'R20.2', [('pyspike.spikes', 'merge_spike_trains')]),
-   lambda c: RM.r20_4_poisson(c, 'R20.4')],
+   lambda c: RM.r20_4_poisson(c, 'R20.4'),
+   lambda c: RM.r_spiketrain_ctor(c, 'R20.5')],
   "R20.1 merge_spike_trains derives its spikes from the `.spikes` of every train of the list through concatenation and sorting only (no "
   "de-duplicating, filtering or slicing operation on the path) and carries the first train's interval; psth pools every train before the histogram "
   "call and uses bin_count+1 equally spaced edges from t_start to t_end; R20.2 neither function modifies its inputs, the merged train is fresh."
@@ -1224,7 +1226,8 @@ def _layer_reconcile(ctx, modules, rule: str) -> List[Ob]:
     fns = _reached_fns(ctx, set(modules))
     dom = ctx.get('chain-reconcile-dom', lambda c: r13_2_reconcile_dominates(c, 'R13.2'))
     shape = ctx.get('chain-reconcile-shape', lambda c: RM.r13_3_reconcile_shape(c, 'R13.3'))
-    return _of_fns(dom, fns, rule) + [Ob(rule, o.title, o.status, o.where, o.detail, o.key, o.construct, o.extra) for o in shape]
+    ctor = ctx.get('chain-spiketrain-ctor', lambda c: RM.r_spiketrain_ctor(c, 'R13.6'))
+    return _of_fns(dom, fns, rule) + [Ob(rule, o.title, o.status, o.where, o.detail, o.key, o.construct, o.extra) for o in shape + ctor]
 
 
 def _layer_defaults(ctx, rule: str) -> List[Ob]:
@@ -1274,6 +1277,21 @@ def _layer_discrete_defs(ctx, rule: str, kinds=('sync', 'order', 'dir')) -> List
             if o.rule in ('R03.3', 'R04.2', 'R03.6')]
 
 
+def _layer_profile_ctor(ctx, rid, modules=None) -> List[Ob]:
+    from .rules_wrappers import r_profile_from_kernel
+    return r_profile_from_kernel(ctx, rid, modules)
+
+
+def _layer_index_precond(ctx, rid) -> List[Ob]:
+    from .rules_precond import r_index_preconditions
+    return r_index_preconditions(ctx, rid)
+
+
+def _layer_isi_lengths(ctx, rid) -> List[Ob]:
+    return [Ob(rid, o.title, o.status, o.where, o.detail, o.key, o.construct, o.extra)
+            for o in RM.r15_4_threshold_definition(ctx, 'R15.4', 'R08.2') if o.rule == 'R15.4']
+
+
 _CHAIN_TXT = {
     'guards': ("{rid} (=R18.1/R05.4) every division by a spike count or a summed multiplicity is dominated by a zero test on that very "
                "quantity, and the zero branch returns the convention of its kind (1 for a summed multiplicity, 0 for a spike count) - in "
@@ -1303,6 +1321,13 @@ _CHAIN_TXT = {
                   "reconciliation keeps exactly the spikes inside that interval (strict comparisons against the edges, nothing re-scaled)."),
     'defaults': ("{rid} (=R15.3) keyword defaults: resolve_keywords and the kernels agree on MRTS=0, RI=False, max_tau=0 (None), so a "
                  "setting that is left out means the same on every route."),
+    'profile_ctor': ("{rid} the bivariate profile functions hand the arrays returned by their kernel to the function class unchanged (no "
+                     "entry dropped, sliced, re-ordered or overwritten between the kernel call and the constructor): integral, avrg, add and "
+                     "evaluation are written against the kernel's layout (edge entries at both ends of a discrete profile)."),
+    'index_precond': ("{rid} caller / helper agreement on the -1 cursor: every read `a[p]` / `a[p-1]` of a backend helper that receives a "
+                      "cursor (get_tau) is under a test of its own, or every call site establishes the bound (dominating test, increment of "
+                      "a monotone cursor, range variable); otherwise an empty train is an IndexError and a non-empty one reads the wrong "
+                      "neighbour."),
     'class_ops': ("{rid} (=R09.6/R09.9) mul_scalar scales exactly the value arrays by the factor, add() is the definition's sum of two "
                   "functions: multivariate profiles are built with these two operations."),
 }
@@ -1312,35 +1337,49 @@ _CHAINS = {
             ('R01.12', 'avrg', lambda c: _class_averages(c, 'R01.12', ('PieceWiseConstFunc',))),
             ('R01.13', 'reconcile', lambda c: _layer_reconcile(c, (_ISI,), 'R01.13')),
             ('R01.14', 'defaults', lambda c: _layer_defaults(c, 'R01.14')),
-            ('R01.15', 'typestates', lambda c: _layer_typestates(c, (_ISI,), 'R01.15'))],
+            ('R01.15', 'typestates', lambda c: _layer_typestates(c, (_ISI,), 'R01.15')),
+            ('R01.16', 'profile_ctor', lambda c: _layer_profile_ctor(c, 'R01.16', (_ISI,))),
+            ('R01.17', 'isi_lengths', lambda c: _layer_isi_lengths(c, 'R01.17'))],
     'C02': [('R02.11', 'plumbing', lambda c: _plumbing(c, (_SPK,), 'R02.11')),
             ('R02.12', 'aux', lambda c: _nonempty_aux(c, 'R02.12')),
             ('R02.13', 'avrg', lambda c: _class_averages(c, 'R02.13', ('PieceWiseLinFunc',))),
             ('R02.14', 'reconcile', lambda c: _layer_reconcile(c, (_SPK,), 'R02.14')),
             ('R02.15', 'defaults', lambda c: _layer_defaults(c, 'R02.15')),
-            ('R02.16', 'typestates', lambda c: _layer_typestates(c, (_SPK,), 'R02.16'))],
+            ('R02.16', 'typestates', lambda c: _layer_typestates(c, (_SPK,), 'R02.16')),
+            ('R02.17', 'profile_ctor', lambda c: _layer_profile_ctor(c, 'R02.17', (_SPK,))),
+            ('R02.18', 'isi_lengths', lambda c: _layer_isi_lengths(c, 'R02.18'))],
     'C03': [('R03.10', 'plumbing', lambda c: _plumbing(c, (_SYN,), 'R03.10')),
             ('R03.11', 'avrg', lambda c: _class_averages(c, 'R03.11', ('DiscreteFunc',))),
             ('R03.12', 'reconcile', lambda c: _layer_reconcile(c, (_SYN,), 'R03.12')),
             ('R03.13', 'defaults', lambda c: _layer_defaults(c, 'R03.13')),
             ('R03.14', 'typestates', lambda c: _layer_typestates(c, (_SYN,), 'R03.14')),
-            ('R03.15', 'guards', lambda c: _layer_guards(c, 'R03.15'))],
+            ('R03.15', 'guards', lambda c: _layer_guards(c, 'R03.15')),
+            ('R03.16', 'profile_ctor', lambda c: _layer_profile_ctor(c, 'R03.16', (_SYN,))),
+            ('R03.17', 'index_precond', lambda c: _layer_index_precond(c, 'R03.17')),
+            ('R03.18', 'isi_lengths', lambda c: _layer_isi_lengths(c, 'R03.18'))],
     'C04': [('R04.10', 'plumbing', lambda c: _plumbing(c, (_DIR,), 'R04.10')),
             ('R04.11', 'avrg', lambda c: _class_averages(c, 'R04.11', ('DiscreteFunc',))),
             ('R04.12', 'reconcile', lambda c: _layer_reconcile(c, (_DIR,), 'R04.12')),
             ('R04.13', 'defaults', lambda c: _layer_defaults(c, 'R04.13')),
             ('R04.14', 'typestates', lambda c: _layer_typestates(c, (_DIR,), 'R04.14')),
-            ('R04.15', 'guards', lambda c: _layer_guards(c, 'R04.15'))],
+            ('R04.15', 'guards', lambda c: _layer_guards(c, 'R04.15')),
+            ('R04.16', 'profile_ctor', lambda c: _layer_profile_ctor(c, 'R04.16', (_DIR,))),
+            ('R04.17', 'index_precond', lambda c: _layer_index_precond(c, 'R04.17')),
+            ('R04.18', 'isi_lengths', lambda c: _layer_isi_lengths(c, 'R04.18'))],
     'C05': [('R05.10', 'class_ops', lambda c: _layer_class_ops(c, 'R05.10')),
             ('R05.11', 'reconcile', lambda c: _layer_reconcile(c, (_ISI, _SPK, _SYN, _DIR), 'R05.11')),
-            ('R05.12', 'plumbing', lambda c: _plumbing(c, (_ISI, _SPK, _SYN, _DIR), 'R05.12'))],
+            ('R05.12', 'plumbing', lambda c: _plumbing(c, (_ISI, _SPK, _SYN, _DIR), 'R05.12')),
+            ('R05.13', 'profile_ctor', lambda c: _layer_profile_ctor(c, 'R05.13'))],
     'C06': [('R06.11', 'plumbing', lambda c: _plumbing(c, (_ISI, _SPK, _SYN), 'R06.11')),
             ('R06.12', 'class_ops', lambda c: _layer_class_ops(c, 'R06.12')),
             ('R06.13', 'reconcile', lambda c: _layer_reconcile(c, (_ISI, _SPK, _SYN), 'R06.13')),
-            ('R06.14', 'avrg', lambda c: _class_averages(c, 'R06.14'))],
+            ('R06.14', 'avrg', lambda c: _class_averages(c, 'R06.14')),
+            ('R06.15', 'profile_ctor', lambda c: _layer_profile_ctor(c, 'R06.15', (_ISI, _SPK, _SYN)))],
     'C07': [('R07.10', 'avrg', lambda c: _class_averages(c, 'R07.10')),
             ('R07.11', 'reconcile', lambda c: _layer_reconcile(c, (_ISI, _SPK, _SYN, _DIR), 'R07.11')),
-            ('R07.12', 'discrete_defs', lambda c: _layer_discrete_defs(c, 'R07.12'))],
+            ('R07.12', 'discrete_defs', lambda c: _layer_discrete_defs(c, 'R07.12')),
+            ('R07.13', 'profile_ctor', lambda c: _layer_profile_ctor(c, 'R07.13')),
+            ('R07.14', 'isi_lengths', lambda c: _layer_isi_lengths(c, 'R07.14'))],
     'C15': [('R15.8', 'reconcile', lambda c: _layer_reconcile(c, (_ISI, _SPK, _SYN, _DIR), 'R15.8')),
             ('R15.9', 'plumbing', lambda c: _plumbing(c, (_ISI, _SPK, _SYN, _DIR), 'R15.9')),
             ('R15.10', 'typestates', lambda c: _layer_typestates(c, (_ISI, _SPK, _SYN, _DIR), 'R15.10'))],
@@ -1350,26 +1389,37 @@ _CHAINS = {
             ('R08.10', 'reconcile', lambda c: _layer_reconcile(c, (_ISI, _SPK, _SYN, _DIR), 'R08.10')),
             ('R08.11', 'plottable', lambda c: _layer_plottable(c, 'R08.11')),
             ('R08.12', 'discrete_defs', lambda c: _layer_discrete_defs(c, 'R08.12')),
-            ('R08.13', 'avrg', lambda c: _class_averages(c, 'R08.13'))],
+            ('R08.13', 'avrg', lambda c: _class_averages(c, 'R08.13')),
+            ('R08.14', 'profile_ctor', lambda c: _layer_profile_ctor(c, 'R08.14')),
+            ('R08.15', 'index_precond', lambda c: _layer_index_precond(c, 'R08.15'))],
     'C10': [('R10.7', 'ownership', lambda c: r09_2_ownership(c, 'R10.7', {'PieceWiseConstFunc', 'PieceWiseLinFunc'}))],
     'C12': [('R12.8', 'avrg', lambda c: _class_averages(c, 'R12.8')),
             ('R12.9', 'plumbing', lambda c: _plumbing(c, (_ISI, _SPK, _SYN, _DIR), 'R12.9')),
             ('R12.10', 'typestates', lambda c: _layer_typestates(c, (_ISI, _SPK, _SYN, _DIR), 'R12.10')),
-            ('R12.11', 'guards', lambda c: _layer_guards(c, 'R12.11'))],
+            ('R12.11', 'guards', lambda c: _layer_guards(c, 'R12.11')),
+            ('R12.12', 'profile_ctor', lambda c: _layer_profile_ctor(c, 'R12.12')),
+            ('R12.13', 'index_precond', lambda c: _layer_index_precond(c, 'R12.13')),
+            ('R12.14', 'isi_lengths', lambda c: _layer_isi_lengths(c, 'R12.14'))],
     'C14': [('R14.8', 'defaults', lambda c: _layer_defaults(c, 'R14.8')),
             ('R14.9', 'reconcile', lambda c: _layer_reconcile(c, (_ISI, _SPK, _SYN, _DIR), 'R14.9')),
             ('R14.10', 'typestates', lambda c: _layer_typestates(c, (_ISI, _SPK, _SYN, _DIR), 'R14.10')),
-            ('R14.11', 'guards', lambda c: _layer_guards(c, 'R14.11'))],
+            ('R14.11', 'guards', lambda c: _layer_guards(c, 'R14.11')),
+            ('R14.12', 'isi_lengths', lambda c: _layer_isi_lengths(c, 'R14.12'))],
     'C16': [('R16.6', 'plumbing', lambda c: _plumbing(c, (_SYN, _DIR), 'R16.6')),
             ('R16.7', 'defaults', lambda c: _layer_defaults(c, 'R16.7')),
             ('R16.8', 'reconcile', lambda c: _layer_reconcile(c, (_SYN, _DIR), 'R16.8')),
-            ('R16.10', 'typestates', lambda c: _layer_typestates(c, (_SYN, _DIR), 'R16.10'))],
+            ('R16.10', 'typestates', lambda c: _layer_typestates(c, (_SYN, _DIR), 'R16.10')),
+            ('R16.11', 'index_precond', lambda c: _layer_index_precond(c, 'R16.11')),
+            ('R16.12', 'isi_lengths', lambda c: _layer_isi_lengths(c, 'R16.12'))],
     'C17': [('R17.6', 'defaults', lambda c: _layer_defaults(c, 'R17.6')),
-            ('R17.7', 'reconcile', lambda c: _layer_reconcile(c, (_SYN,), 'R17.7'))],
+            ('R17.7', 'reconcile', lambda c: _layer_reconcile(c, (_SYN,), 'R17.7')),
+            ('R17.8', 'isi_lengths', lambda c: _layer_isi_lengths(c, 'R17.8'))],
     'C18': [('R18.11', 'reconcile', lambda c: _layer_reconcile(c, (_ISI, _SPK, _SYN, _DIR), 'R18.11')),
             ('R18.12', 'avrg', lambda c: _class_averages(c, 'R18.12')),
             ('R18.13', 'plumbing', lambda c: _plumbing(c, (_ISI, _SPK, _SYN, _DIR), 'R18.13')),
-            ('R18.14', 'add_kernels', lambda c: _layer_add_kernels(c, 'R18.14'))],
+            ('R18.14', 'add_kernels', lambda c: _layer_add_kernels(c, 'R18.14')),
+            ('R18.15', 'index_precond', lambda c: _layer_index_precond(c, 'R18.15')),
+            ('R18.16', 'profile_ctor', lambda c: _layer_profile_ctor(c, 'R18.16'))],
 }
 for _pid, _items in _CHAINS.items():
     for _rid, _kind, _fn_ in _items:
